@@ -202,3 +202,45 @@ package postgresql
 //@   at call EnvelopeDetector.AddCallback#0 : assert typeis(arg[0], crypto.PoisonRecordDetector) && !called(EnvelopeDetector.AddCallback#1)
 //@   at call EnvelopeDetector.AddCallback#1 : assert typeis(arg[0], crypto.DecryptHandler) && (called(EnvelopeDetector.AddCallback#0) || !(ret(ProxySetting.PoisonRecordCallbackStorage#0)[0] != nil && ret(PoisonRecordCallbackStorage.HasCallbacks)[0]))
 //@   at call crypto.NewPoisonRecordsRecognizer : assert ret(PoisonRecordCallbackStorage.HasCallbacks)[0]
+
+// ---- Typed columns (C19): the type id that selects the value encoder is the one the description is rewritten to ----
+//@ func mapEncryptedTypeToOID(dataTypeID uint32) (oid uint32, ok bool)
+//@   props C19
+//@   safety
+//@   ensures registered-type-only: ok <==> haskey(ret(type_awareness.GetPostgreSQLDataTypeIDEncoders)[0], dataTypeID)
+//@   ensures same-id: ok ==> oid == dataTypeID
+//@   ensures none: !ok ==> oid == 0
+
+//@ func (p *PgSQLDataEncoderProcessor) OnColumn(ctx context.Context, data []byte) (outCtx context.Context, out []byte, err error)
+//@   props C19
+//@   safety
+//@   ensures empty-untouched: len(data) == 0 ==> sameslice(out, data) && err == nil
+//@   ensures declared-type-encoder-decides: len(data) != 0 && ret(base.ColumnInfoFromContext)[1] && haskey(ret(type_awareness.GetPostgreSQLDataTypeIDEncoders)[0], ret(ColumnEncryptionSetting.GetDBDataTypeID)[0]) ==> called(DataTypeEncoder.Encode) && sameslice(out, ret(DataTypeEncoder.Encode)[1]) && err == ret(DataTypeEncoder.Encode)[2]
+//@   ensures untyped-unrevealed-as-stored: len(data) != 0 && ret(base.ColumnInfoFromContext)[1] && !haskey(ret(type_awareness.GetPostgreSQLDataTypeIDEncoders)[0], ret(ColumnEncryptionSetting.GetDBDataTypeID)[0]) && !ret(base.IsDecryptedFromContext#1)[0] ==> err == nil && ((ret(base.GetEncodedValueFromContext)[1] && sameslice(out, ret(base.GetEncodedValueFromContext)[0])) || (!ret(base.GetEncodedValueFromContext)[1] && sameslice(out, data)))
+//@   at call DataTypeEncoder.Encode : assert sameslice(arg[1], data) && recv == ret(type_awareness.GetPostgreSQLDataTypeIDEncoders)[0][ret(ColumnEncryptionSetting.GetDBDataTypeID)[0]]
+//@   at call NewDataTypeFormat : assert arg[0] == ret(base.ColumnInfoFromContext)[0] && arg[1] == columnSetting
+
+//@ func (p *PgSQLDataDecoderProcessor) OnColumn(ctx context.Context, data []byte) (outCtx context.Context, out []byte, err error)
+//@   props C19
+//@   safety
+//@   ensures declared-type-decoder-decides: ret(base.ColumnInfoFromContext)[1] && haskey(ret(type_awareness.GetPostgreSQLDataTypeIDEncoders)[0], ret(ColumnEncryptionSetting.GetDBDataTypeID)[0]) ==> called(DataTypeEncoder.Decode) && sameslice(out, ret(DataTypeEncoder.Decode)[1]) && err == ret(DataTypeEncoder.Decode)[2]
+//@   ensures non-binary-untouched: ret(base.ColumnInfoFromContext)[1] && !haskey(ret(type_awareness.GetPostgreSQLDataTypeIDEncoders)[0], ret(ColumnEncryptionSetting.GetDBDataTypeID)[0]) && !ret(config.IsBinaryDataOperation)[0] ==> sameslice(out, data) && err == nil
+//@   ensures undecodable-untouched: called(utils.DecodeEscaped) && ret(utils.DecodeEscaped)[1] != nil ==> sameslice(out, data)
+//@   at call DataTypeEncoder.Decode : assert sameslice(arg[1], data)
+//@   at call NewDataTypeFormat : assert arg[0] == ret(base.ColumnInfoFromContext)[0] && arg[1] == columnSetting
+
+//@ func (proxy *PgProxy) handleRowDescription(ctx context.Context, packet *PacketHandler, logger *log.Entry) (err error)
+//@   props C19 C14
+//@   safety
+//@   loop 0 invariant 0 <= i
+//@          step described-as-declared: itercalled(mapEncryptedTypeToOID) && ret(mapEncryptedTypeToOID)[1] ==> rowDescription.Fields[prev(i)].DataTypeOID == argof(mapEncryptedTypeToOID)[0] && changed
+//@   at call mapEncryptedTypeToOID : assert arg[0] == ret(ColumnEncryptionSetting.GetDBDataTypeID)[0]
+//@   ensures err == nil
+
+//@ func (proxy *PgProxy) handleParameterDescription(ctx context.Context, packet *PacketHandler, logger *log.Entry) (err error)
+//@   props C19 C14
+//@   safety
+//@   loop 0 invariant 0 <= i
+//@          step described-as-declared: itercalled(mapEncryptedTypeToOID) && ret(mapEncryptedTypeToOID)[1] ==> parameterDescription.ParameterOIDs[prev(i)] == argof(mapEncryptedTypeToOID)[0] && changed
+//@   at call mapEncryptedTypeToOID : assert arg[0] == ret(ColumnEncryptionSetting.GetDBDataTypeID)[0]
+//@   ensures err == nil
